@@ -10,6 +10,7 @@ mod c13;
 mod c11;
 mod deleg;
 mod http;
+mod lifecycle;
 mod c06;
 mod repo;
 mod c15;
@@ -29,6 +30,7 @@ fn main() {
         "timekey" => { for alg in ["rsa","ed25519","ecdsa"] { let t=std::time::Instant::now(); let k=base::make_key(alg,0); let a=t.elapsed(); let t=std::time::Instant::now(); let _=tough::sign::parse_keypair(&k.private_file).is_ok(); let b=t.elapsed(); let t=std::time::Instant::now(); let s=k.sign(b"x"); let c=t.elapsed(); println!("{alg}: make {:?} parse_keypair {:?} sign {:?} {}", a,b,c,s.len()); } }
         "c20" => c20::run(rest),
         "c19" => c19::run(rest),
+        "lifecycle" => lifecycle::run(rest),
         "c10" => editor::run(rest),
         "c17" => editor::run_update(rest),
         "c10x" => editor::run_xparty(rest),
